@@ -127,15 +127,14 @@ def run(chk):
     bad = [unparse(c)[:50] for c in calls_in(idf.node) if isinstance(c.func, ast.Attribute) and c.func.attr in ("drop_duplicates", "resample", "groupby", "head", "tail", "asfreq")]
     r2.require(not bad, f"{idf.key}|no-row-changers", idf.where(), f"_initialize_data applies row-changing operations {bad}")
     # billing: unaggregated path returns _predict's frame unchanged
+    from rules.billing_agg import billing_outcomes
     for mc in (BILLING_MODEL, WEIGHTED_MODEL):
         c = chk.repo.cls(*mc)
         p = method(chk, c, "predict")
-        cfg = CFG(p.node)
-        work = [st for st, _c in self_calls(p, {"_predict"})]
-        nm = work[0].targets[0].id if work and isinstance(work[0], ast.Assign) else None
-        rebinds = [s for s in cfg.stmts() if isinstance(s, ast.Assign) and any(isinstance(t, ast.Name) and t.id == nm for t in s.targets) and s is not work[0]]
-        ok = nm is not None and all(any(pol and unparse(t) == "agg is not None" for t, pol in cfg.guards(s)) for s in rebinds)
-        r2.require(ok, f"{p.key}|unaggregated-pass-through", p.where(), f"{p.qualname}: outside the aggregation branch the frame returned by _predict must not be re-bound")
+        out = billing_outcomes(chk, p, {"BillingModel", "DailyModel", c.name})
+        bad = {k: v for k, v in out.items() if (k[0] is None or (isinstance(k[0], str) and k[0].lower() == "none")) and not (v.get("returns") == "frame" and v["frame"] == {"frame": "predict", "ops": []})}
+        r2.require(not bad, f"{p.key}|unaggregated-pass-through", p.where(),
+                   f"{p.qualname}: without aggregation the frame returned by _predict must be handed out unchanged (interpreted for aggregation in None/'none'); found {list(bad.items())[:1]}")
     dp = method(chk, dm, "predict")
     rts = [s for s in walk_no_nested(dp.node) if isinstance(s, ast.Return)]
     rd2 = ReachingDefs(dp.node)
